@@ -71,6 +71,7 @@ ASSUMPTIONS = [
 ]
 SERIAL = False
 ERR_TIMEOUT = float(os.environ.get("VERIF_C13_TIMEOUT", "10"))
+ERR_CPU = int(os.environ.get("VERIF_C13_ERR_CPU", "5"))
 N_STR_QUICK = int(os.environ.get("VERIF_C13_NSTR", "500"))
 
 
@@ -1372,10 +1373,11 @@ def run_err(case):
     for _ in range(case["n"]):
         content = mutate_text(rng, content)
     content = content.encode("utf-8", "replace").decode("utf-8")  # valid Unicode text only
-    obs = in_child(lambda: load_config_dir(content, version), ERR_TIMEOUT)
+    # one forked child under a CPU-time limit (a normal load needs < 1 s of CPU): a spinning parser is recognised independently of the
+    # machine load, without a retry; sleeping hangs are caught by the wall-clock limit
+    obs = cfgk.in_child_cpu([lambda: load_config_dir(content, version)], ERR_CPU, 120.0)[0]
     if obs.get("outcome") == "timeout":
-        # a loaded machine must not be mistaken for a hang: a second, three times longer attempt decides
-        obs = in_child(lambda: load_config_dir(content, version), 3 * ERR_TIMEOUT)
+        obs["timeout_s"] = obs.get("limit")
     obs["version"] = version
     obs["content"] = content
     obs["lines"] = content.splitlines()
@@ -1469,6 +1471,7 @@ def count_flow_headers(text):
 
 IN_PROCESS_LIMIT = float(os.environ.get("VERIF_C13_INPROC", "60"))   # wall-clock seconds for one in-process layout case (normally < 2 s)
 SWEEP_LIMIT = float(os.environ.get("VERIF_C13_SWEEP", "1200"))
+FORKED_KIND_LIMIT = float(os.environ.get("VERIF_C13_FORKED", "120"))
 _HANGS = 0
 
 
@@ -1482,13 +1485,16 @@ def run_impl(case):
     it back-tracks, so the alarm does interrupt a regex.)  After two hangs a worker waits 5 s only, after six 1.5 s."""
     global _HANGS
     k = case["kind"]
-    if k not in ("tok", "v2", "v1", "file"):
-        return _run_impl(case)
-    limit = SWEEP_LIMIT if case.get("sweep") else IN_PROCESS_LIMIT
-    if _HANGS >= 6:
-        limit = min(limit, 1.5)
-    elif _HANGS >= 2:
-        limit = min(limit, 5)
+    if k in ("tok", "v2", "v1", "file"):
+        limit = SWEEP_LIMIT if case.get("sweep") else IN_PROCESS_LIMIT
+        if _HANGS >= 6:
+            limit = min(limit, 1.5)
+        elif _HANGS >= 2:
+            limit = min(limit, 5)
+    else:
+        # the kinds that load in forked children (own CPU / wall limits) also call the real parser in the worker itself (the world of a
+        # `cfg` tree, the token types of a `str` program, get_numbered_lines of an `err` text): the whole case gets a generous limit
+        limit = FORKED_KIND_LIMIT if _HANGS < 2 else (20 if _HANGS < 6 else 8)
 
     def on_alarm(signum, frame):
         raise _InProcessHang()
@@ -1584,13 +1590,13 @@ def _edits_of(case, obs):
 
 
 def model_requests(case, obs):
+    if "inproc_hang" in obs:
+        return []
     k = case["kind"]
     if k == "cfg":
         return cfgk.model_requests_cfg(case, obs)
     if k == "str":
         return strk.model_requests_str(case, obs)
-    if "inproc_hang" in obs:
-        return []
     if obs.get("sweep"):
         return []
     if obs.get("version") == "2.x" and k in ("tok", "v2", "file"):
@@ -1710,6 +1716,8 @@ def _unsafe(x):
 
 
 def compare(case, obs, mouts):
+    if "inproc_hang" in obs:
+        return None
     k = case["kind"]
     if k == "cfg":
         return cfgk.compare_cfg(case, obs, mouts)
@@ -1806,13 +1814,13 @@ def compare(case, obs, mouts):
 # ============================================================================================ oracle (the property)
 
 def oracle(case, obs):
+    if "inproc_hang" in obs:
+        return f"parsing (lexer / parser / transformer called in-process on the files of the case) did not finish within {obs['inproc_hang']:g} s: a hang"
     k = case["kind"]
     if k == "cfg":
         return cfgk.oracle_cfg(case, obs)
     if k == "str":
         return strk.oracle_str(case, obs)
-    if "inproc_hang" in obs:
-        return f"parsing (lexer / parser / transformer called in-process on the program and its layout edit) did not finish within {obs['inproc_hang']:g} s: a hang"
     if obs.get("sweep"):
         b = obs.get("bad") or obs.get("known_bad")
         if b:
@@ -1853,7 +1861,7 @@ def oracle(case, obs):
         if o in ("ok", "skip"):
             return None
         if o == "timeout":
-            return f"loading did not finish within {obs['timeout_s']} s"
+            return f"loading did not finish within {obs['timeout_s']}" + (" s" if not isinstance(obs['timeout_s'], str) else "") + ": a hang"
         if o == "adapter":
             return f"adapter failure {obs.get('cls')}: {obs.get('msg')}"
         if obs.get("is_cpe"):
@@ -1927,13 +1935,13 @@ def _last_line_is_bodyless_define(content):
 
 
 def signature(case, obs, msg):
+    if "inproc_hang" in obs:
+        return None
     k = case["kind"]
     if k == "cfg":
         return cfgk.signature_cfg(case, obs, msg)
     if k == "str":
         return strk.signature_str(case, obs, msg)
-    if "inproc_hang" in obs:
-        return None
     if obs.get("sweep"):
         return "eol-comment-pre-expansion-v2" if obs.get("known_bad") and not obs.get("bad") else None
     if k in ("err", "fmt") and obs.get("outcome") == "raised":
@@ -1967,13 +1975,13 @@ def signature(case, obs, msg):
 
 
 def nontrivial(case, obs):
+    if "inproc_hang" in obs:
+        return False
     k = case["kind"]
     if k == "cfg":
         return obs["base"]["outcome"] == "ok" and len(obs["base"].get("parsed", [])) >= 2 or obs["base"]["outcome"] == "raised"
     if k == "str":
         return strk.nontrivial_str(case, obs)
-    if "inproc_hang" in obs:
-        return False
     if obs.get("sweep"):
         return obs.get("tried", 0) > 0
     if k == "tok":
@@ -1986,13 +1994,13 @@ def nontrivial(case, obs):
 
 
 def tags(case, obs):
+    if "inproc_hang" in obs:
+        return ["kind:" + case["kind"], "in-process-hang"]
     k = case["kind"]
     if k == "cfg":
         return cfgk.tags_cfg(case, obs)
     if k == "str":
         return strk.tags_str(case, obs)
-    if "inproc_hang" in obs:
-        return ["kind:" + k, "in-process-hang"]
     t = ["kind:" + k + (":" + obs["version"] if "version" in obs and k == "file" else "")]
     if obs.get("sweep"):
         t.append("sweep-variants:%d" % (obs.get("tried", 0) // 50 * 50))
